@@ -91,7 +91,7 @@ def list_depth(x):
     return d
 
 
-def ak_build(arr, elems, sig, flavor, depth=None):
+def ak_build(arr, elems, sig, flavor, depth=None, raw_spelling=None):
     import awkward as ak
     import vector
 
@@ -111,7 +111,19 @@ def ak_build(arr, elems, sig, flavor, depth=None):
     for _ in range((depth or list_depth(arr)) - 1):
         probe = [probe]
     # the probe element fixes the type of empty / all-missing lists; it is sliced off again
-    return vector.Array(ak.Array(data + [probe])[: len(data)])
+    built = ak.Array(data + [probe])[: len(data)]
+    if raw_spelling is not None:
+        # records named by ak.with_name, fields kept under the user's own spelling (vector.Array would rename them)
+        alt = {"E": ["E", "e", "energy"][raw_spelling % 3], "mass": ["mass", "M", "m"][raw_spelling % 3]}
+        for old_, new_ in alt.items():
+            if old_ in names and new_ != old_:
+                built = ak.with_field(ak.without_field(built, old_), built[old_], new_)
+        recname = ("Momentum" if flavor == "momentum" else "Vector") + f"{len(sig) + 1}D"
+        return ak.Array(ak.with_name(built, recname), behavior=vector.backends.awkward.behavior)
+    return vector.Array(built)
+
+
+RAW_REDUCE = [0]
 
 
 def run_reduce(case, elems, sigs, recs):
@@ -152,6 +164,11 @@ def run_reduce(case, elems, sigs, recs):
                         a = ak_build(case["arr"], elems, sig, flavor, depth=3 if case["exp"][0] == "nested" else 2)
                         f = {"sum": ak.sum, "count": ak.count, "count_nonzero": ak.count_nonzero}[case["op"]]
                         variants = [("ak", f(a, axis=axis, keepdims=keep) if case["op"] == "sum" else f(a, axis=axis))]
+                        if flavor == "momentum" and n == 4:
+                            # the same data under the user's own field spellings (e / energy, M / m)
+                            RAW_REDUCE[0] += 1
+                            a2 = ak_build(case["arr"], elems, sig, flavor, depth=3 if case["exp"][0] == "nested" else 2, raw_spelling=RAW_REDUCE[0])
+                            variants.append(("ak-raw-fields", f(a2, axis=axis, keepdims=keep) if case["op"] == "sum" else f(a2, axis=axis)))
             except Exception as ex:
                 recs.append(dict(base, kind="exception", error=f"{type(ex).__name__}: {ex}"[:300]))
                 continue
@@ -407,6 +424,21 @@ def run_object_array_forms(elems, sigs, recs):
                 vals = [float(numpy.asarray(plain[g]).ravel()[0]) for g in coords.field_names(sig)]
                 if vals != row:
                     recs.append(dict(base, kind="wrong-values", form=form, got=vals, want=row))
+                if form == "asanyarray" and raw is None:
+                    # the array form of an object is zero-dimensional: it copies, pickles and indexes like any other shape
+                    for how, g in (("pickle", lambda a: pickle.loads(pickle.dumps(a))), ("copy", lambda a: a.copy()), ("deepcopy", copy.deepcopy),
+                                   ("pickle-protocol-2", lambda a: pickle.loads(pickle.dumps(a, protocol=2)))):
+                        calls += 1
+                        try:
+                            back = g(out)
+                            if type(back) is not type(out) or back.shape != out.shape or back.dtype != out.dtype or back.tobytes() != out.tobytes():
+                                recs.append(dict(base, kind="zero-dimensional-array-does-not-round-trip", form=how,
+                                                 got=f"{type(back).__name__} shape {back.shape}", want=f"{type(out).__name__} shape {out.shape}"))
+                            el = back[()]
+                            if not isinstance(el, vector.VectorObject) or tuple(coords.sig_of(el)) != tuple(sig):
+                                recs.append(dict(base, kind="zero-dimensional-array-element", form=how, got=type(el).__name__))
+                        except Exception as ex:
+                            recs.append(dict(base, kind="exception", form=how, error=f"{type(ex).__name__}: {ex}"[:200]))
     return calls
 
 
